@@ -259,6 +259,10 @@ def explore(run, tier):
             ('  BIG  BOBS\\ 80\tKERNDALE\\\xa0D\\' + tail, d43('  BIG  BOBS', ' 80\tKERNDALE', '\xa0D')),
             ('A\\B\\C\\2000      N  NZL', d43('A', 'B', 'C', '2000', 'N  ', 'NZL')),
             ('A\\B\\C\\          NSWAUS', d43('A', 'B', 'C', '', 'NSW', 'AUS')),
+            # the post code loses ALL trailing white space (a no-break space, a tab as well as blanks)
+            ('A\\B\\C\\3103\xa0     VICAUS', d43('A', 'B', 'C', '3103')),
+            ('A\\B\\C\\3103    \t VICAUS', d43('A', 'B', 'C', '3103')),
+            ('A\\B\\C\\31 03\t\x0b\x0c\x85\xa0VICAUS', d43('A', 'B', 'C', '31 03')),
             ('A\\B\\C\\2000      NSWAU ', {}),
             ('A\\B\\C\\2000      NSWA\xa0S', {}),          # a no-break space is white space: no country code
             ('A\\B\\C\\2000      NSW\x85US', {}),
